@@ -246,6 +246,19 @@ class RaiseRecord:
 
 
 @dataclass
+class LoopRecord:
+    func: str
+    loc: str
+    lv: Any
+    iter: Any
+    carried: Dict[str, Tuple[Any, Any, Any]]  # name -> (value before loop, carried symbol, value after one body)
+    break_conds: List[Any]
+    return_conds: List[Any]
+    has_else: bool
+    body_env: Any = None
+
+
+@dataclass
 class StoreRecord:
     func: str
     loc: str
@@ -270,6 +283,7 @@ class Interp:
         self.raises: List[RaiseRecord] = []
         self.stores: List[StoreRecord] = []
         self.calls: List[Tuple[str, str, str]] = []  # (caller, callee, loc)
+        self.loops: List[LoopRecord] = []
         self.ext_used: Dict[str, str] = {}  # chain -> first loc
         self.unknown_notes: List[str] = []
         self.functions_visited: Dict[str, int] = {}
@@ -1527,6 +1541,12 @@ class Interp:
             return out
         if final_env is None:
             final_env = fb.breaks[0][1]
+        self.loops.append(LoopRecord(
+            func=env.func.qualname if env.func else "", loc=self.loc(env, st), lv=lv, iter=itt,
+            carried={n: (pre[n], carried_syms.get(n), final_env.vars.get(n, MISSING)) for n in carried_names},
+            break_conds=[self.relative_cond(c, benv.pathcond) for c, _ in fb.breaks],
+            return_conds=[self.relative_cond(c, benv.pathcond) for c, _ in fb.returns],
+            has_else=bool(st.orelse), body_env=final_env))
         for n in carried_names:
             orig = pre[n]
             fin = final_env.vars.get(n, MISSING)
